@@ -96,7 +96,7 @@ def program_lines(rng, g, ops):
     lines = ["reset"]
     for r_ in range(4):
         lines.append(f"sete {r_} {hexs(rand_coeffs(rng, g))}")
-        lines.append(f"sett {r_} {hexs(rand_tangent(rng, g, rng.choice([1e-6, 2e-5, 9e-5, 2e-4, 1e-2, 0.1, 1.0]), rng.choice([None, 1.0, 0.3])))}")
+        lines.append(f"sett {r_} {hexs(rand_tangent(rng, g, rng.choice([1e-6, 2e-5, 9e-5, 2e-4, 1e-2, 0.1, 1.0, 1.0, 4.0, 9.0, 14.0]), rng.choice([None, 1.0, 0.3])))}")
     for op, a, b, c in ops:
         lines.append(f"{op} {a} {b} {c}")
     return lines
@@ -140,6 +140,18 @@ def band_lines(rng, g, n):
         lines.append(f"sett 0 {hexs(t)}")
         lines.append("exp 1 0 0")
         lines.append("rplus 2 0 0")
+    # rotation parts of one to four turns (the canonical sign q_w >= 0 must survive every multiple of 2 pi)
+    for i in range(max(n // 2, 8)):
+        th = rng.uniform(0.5, 8.5) * math.pi
+        t = rand_tangent(rng, g, 1.0, 1.0)
+        rot = ROT_IDX[g]
+        if rot:
+            nrm = math.sqrt(sum(t[j] ** 2 for j in rot)) or 1.0
+            for j in rot:
+                t[j] *= th / nrm
+        lines.append(f"sett 1 {hexs(t)}")
+        lines.append("exp 3 1 0")
+        lines.append("rplus 4 0 1")
     return lines
 
 
